@@ -328,6 +328,14 @@ fn record(seed: u64, count: usize, nested: bool, path: &str) {
     for _ in 0..count {
         let n = rng.gen_range(1..=uni::MAX_NODES);
         let mut info: Vec<Value> = (0..n).map(|t| rand_info(&mut rng, t, n, nested)).collect();
+        // distinct identities may have IDENTICAL definitions (same-named local types, generics differing only
+        // in a skipped parameter): the registry keys on identity, never on the definition
+        for t in 1..n {
+            if rng.gen_bool(0.15) {
+                let src = rng.gen_range(0..t);
+                info[t] = info[src].clone();
+            }
+        }
         info.push(uni::phantom_info());
         let info = json!(info);
         let hl = rng.gen_range(1..=6);
